@@ -129,7 +129,7 @@ struct Driver {
     std::mutex mb_mutex; std::condition_variable mb_cv;
     int mb_target = -1; std::function<void()> mb_fn; bool mb_done = false; bool mb_quit = false;
     std::atomic<int> mb_ready{0};
-    std::vector<std::unique_ptr<NonTemplateJob>> jobs;
+    std::vector<std::unique_ptr<struct VJob>> jobs;
 
     EntityManager& em() { return world->entities(); }
 };
@@ -472,6 +472,10 @@ template<typename T> static void typed_assign_value(EntityManager& em, Entity e,
 
 static void write_value(void* p, int64_t v) { if (p) memcpy(p, &v, 8); }
 
+struct VJob : NonTemplateJob {
+    uint32_t forced = 0;
+    TasksCount taskCount(World& w, uint32_t n) const noexcept override { return forced ? TasksCount::make(forced) : NonTemplateJob::taskCount(w, n); }
+};
 struct JobSpec { std::vector<std::pair<int, int>> reqs; /* pal, flags: 1 const, 2 optional */ std::vector<int> check; };
 
 static std::string run_script(const std::vector<std::string>& lines, std::ostream& out) {
@@ -605,7 +609,7 @@ static std::string run_script(const std::vector<std::string>& lines, std::ostrea
         else if (op == "valid") { std::string h; in >> h; R << (em.isEntityValid(parse_handle(h)) ? 1 : 0); }
         else if (op == "archof") { std::string h; in >> h; auto* a = em.getArchetypeOf(parse_handle(h)); if (a) R << a->id().toInt(); else R << "null"; }
         else if (op == "mkjob") { // mkjob <entity 0/1> <reqs: pal:flags ...> c <check pals...>   flags: 1 const, 2 optional
-            int want_entity; in >> want_entity; auto job = std::make_unique<NonTemplateJob>(); job->require_entity = want_entity != 0;
+            int want_entity; in >> want_entity; auto job = std::make_unique<VJob>(); job->require_entity = want_entity != 0;
             std::string tok; bool chk = false;
             while (in >> tok) {
                 if (tok == "c") { chk = true; continue; }
@@ -613,17 +617,24 @@ static std::string run_script(const std::vector<std::string>& lines, std::ostrea
                 else { auto c = tok.find(':'); int p = std::stoi(tok.substr(0, c)); int fl = std::stoi(tok.substr(c + 1)); do_register(p, 0);
                     NonTemplateJob::ComponentRequest r; r.id = d.cid[p]; r.is_const = fl & 1; r.is_required = !(fl & 2); job->component_requests.push_back(r); }
             }
-            d.jobs.push_back(std::move(job)); R << (d.jobs.size() - 1);
+            R << d.jobs.size() << " req=";
+            for (size_t i = 0; i < job->component_requests.size(); ++i) { auto& r = job->component_requests[i];
+                R << (i ? "," : "") << r.id.toInt() << ":" << ((r.is_const ? 1 : 0) | (r.is_required ? 0 : 2)); }
+            R << " chk=";
+            { bool first = true; for (auto id : job->version_check_mask.items()) { R << (first ? "" : ",") << id.toInt(); first = false; } if (first) R << "-"; }
+            d.jobs.push_back(std::move(job));
         }
-        else if (op == "runjob") { // runjob <j> <mode 0 cur,1 par> [tasks]
-            size_t j; int mode; int tasks = 0; in >> j >> mode; in >> tasks;
-            struct Visit { uint32_t task; std::string ent; uint32_t idx; };
-            std::vector<std::string> visits; std::mutex vm;
+        else if (op == "runjob") { // runjob <j> <mode 0 current thread, 1 parallel> [forced task count]
+            size_t j; int mode; uint32_t tasks = 0; in >> j >> mode; in >> tasks;
+            std::vector<std::pair<uint32_t, std::string>> arrays; std::mutex vm;
             auto& job = *d.jobs[j];
+            job.forced = tasks;
             job.callback = [&](NonTemplateJob::ForEachArrayArgs a) {
                 std::ostringstream s;
+                s << "t" << a.invocation_index.task_index.toInt() << ":n" << a.invocation_index.entity_index.toInt() << ":";
                 for (uint32_t i = 0; i < a.count.toInt(); ++i) {
-                    s << " " << a.invocation_index.task_index.toInt() << "/" << (a.invocation_index.entity_index.toInt() + i) << "/" << (a.entities ? hname(a.entities[i]) : std::string("?"));
+                    if (i) s << ",";
+                    s << (a.entities ? hname(a.entities[i]) : std::string("?"));
                     for (size_t c = 0; c < job.component_requests.size(); ++c) {
                         auto* base = static_cast<std::byte*>(a.components[c]);
                         const int pal = pal_of_cid(job.component_requests[c].id);
@@ -632,11 +643,12 @@ static std::string run_script(const std::vector<std::string>& lines, std::ostrea
                         s << "/" << (has_value(pal) ? std::to_string(read_value(base + i * sz)) : "_");
                     }
                 }
-                std::lock_guard<std::mutex> lock{vm}; visits.push_back(s.str());
+                std::lock_guard<std::mutex> lock{vm}; arrays.push_back({a.invocation_index.entity_index.toInt(), s.str()});
             };
             job.run(*d.world, mode == 1 ? JobRunMode::kParallel : JobRunMode::kCurrentThread);
-            std::sort(visits.begin(), visits.end());
-            for (auto& v : visits) R << v;
+            std::sort(arrays.begin(), arrays.end());
+            R << "last=" << job.last_update_version_.toInt();
+            for (auto& v : arrays) R << " " << v.second;
         }
         else if (op == "teardown") { disarm(); d.jobs.clear(); collect_ranges(g_snapshot); g_use_snapshot = true; d.world.reset(); g_use_snapshot = false; out << "R\n";
             { std::lock_guard<std::mutex> lock{g_log_mutex}; out << "E"; for (auto& e : g_events) out << " " << render(e); out << "\n"; g_events.clear(); }
